@@ -137,3 +137,13 @@ def tree_stats(tree: t.Any) -> t.Dict[str, int]:
                 st['cause'] += 1
     rec(tree, 1, ())
     return st
+
+
+def leaf_actuals(tr: t.Any) -> t.List[t.Any]:
+    """The offending sub-values recorded by the leaves of an error tree."""
+    from pane.errors import ProductErrorNode, SumErrorNode
+    if isinstance(tr, ProductErrorNode):
+        return [a for c in tr.children.values() for a in leaf_actuals(c)] if tr.children else [tr.actual]
+    if isinstance(tr, SumErrorNode):
+        return [a for c in tr.children for a in leaf_actuals(c)]
+    return [tr.actual] if hasattr(tr, 'actual') else []
